@@ -70,6 +70,24 @@ func Zero(typ types.Type) string {
 	return "nil"
 }
 
+// ZeroValue returns an expression for the zero value of a type,
+// given the type as it is printed in the generated code.
+// Unlike Zero it is also correct for named basic types, structs and arrays.
+func ZeroValue(typ types.Type, typeStr string) string {
+	switch t := typ.(type) {
+	case *types.Basic:
+		return Zero(t)
+	case *types.Pointer, *types.Slice, *types.Map, *types.Chan, *types.Signature, *types.Interface:
+		return "nil"
+	case *types.Named:
+		switch t.Underlying().(type) {
+		case *types.Pointer, *types.Slice, *types.Map, *types.Chan, *types.Signature, *types.Interface:
+			return "nil"
+		}
+	}
+	return "*new(" + typeStr + ")"
+}
+
 func IsComparable(tt types.Type) bool {
 	t := tt.Underlying()
 	switch typ := t.(type) {
